@@ -6,7 +6,6 @@
 use std::sync::Mutex;
 
 use reed_solomon_simd::engine::{DefaultEngine, Engine, ShardsRefMut};
-use reed_solomon_simd::{ReedSolomonDecoder, ReedSolomonEncoder};
 
 use crate::gen::{self, Class};
 use crate::hooks;
@@ -105,12 +104,22 @@ impl Drop for Mask {
     }
 }
 
-/// Judges the counter delta of one direct primitive call: nothing compiled
-/// for an ISA other than the best reported one may run, and the primitive
-/// itself must be served by the best reported ISA. (Other primitives' entry
-/// points on the best ISA may be hit as well - an engine is free to build one
-/// primitive from another.)
-fn judge_exact(out: &mut CaseOut, mask: usize, prim: usize, d: [[u64; 4]; 3], what: &str) {
+fn best_kind(mask: usize) -> crate::codec::EngineKind {
+    match best(mask) {
+        Some(AVX2) => crate::codec::EngineKind::Avx2,
+        Some(SSSE3) => crate::codec::EngineKind::Ssse3,
+        _ => crate::codec::EngineKind::NoSimd,
+    }
+}
+
+/// Judges the ISA trace `d` of an operation done through DefaultEngine under
+/// the reported set `mask` against the trace `reference` of the very same
+/// operation done with the best reported engine chosen explicitly: nothing
+/// compiled for another ISA may run, and whatever entry points the best engine
+/// itself goes through must be gone through. (What an engine does internally -
+/// e.g. building one primitive from another, or not entering SIMD code at all
+/// for an empty transform - is its own business and shows up in both traces.)
+fn judge_against_reference(out: &mut CaseOut, mask: usize, d: [[u64; 4]; 3], reference: [[u64; 4]; 3], what: &str) {
     let b = best(mask);
     for isa in 0..3 {
         for p in 0..4 {
@@ -123,18 +132,17 @@ fn judge_exact(out: &mut CaseOut, mask: usize, prim: usize, d: [[u64; 4]; 3], wh
                 };
                 out.violate(
                     sig,
-                    format!("{what} under reported set {}: counter[{}][{}] moved by {}; full delta {d:?}", mask_name(mask), ISAS[isa], PRIMS[p], d[isa][p]),
+                    format!("{what} under reported set {}: counter[{}][{}] moved by {}; trace {d:?}, trace of the explicitly chosen best engine {reference:?}", mask_name(mask), ISAS[isa], PRIMS[p], d[isa][p]),
                 );
                 return;
             }
-        }
-    }
-    if let Some(bi) = b {
-        if d[bi][prim] == 0 {
-            out.violate(
-                format!("C14:best-isa-not-used:{}:{}", ISAS[bi], PRIMS[prim]),
-                format!("{what} under reported set {}: the {} entry point of the best reported ISA {} was never entered; full delta {d:?}", mask_name(mask), PRIMS[prim], ISAS[bi]),
-            );
+            if d[isa][p] == 0 && reference[isa][p] > 0 {
+                out.violate(
+                    format!("C14:best-isa-not-used:{}:{}", ISAS[isa], PRIMS[p]),
+                    format!("{what} under reported set {}: the explicitly chosen best engine enters its {} {} code for this operation, DefaultEngine did not (served by a less capable engine); trace {d:?}, reference {reference:?}", mask_name(mask), ISAS[isa], PRIMS[p]),
+                );
+                return;
+            }
         }
     }
 }
@@ -170,40 +178,57 @@ fn primitive_case(rng: &mut Rng, out: &mut CaseOut) {
             out.inconclusive.push("feature-mask hook never reached by DefaultEngine::new (detection no longer goes through the shadowed macro?)".into());
             return;
         }
-        let c0 = hooks::isa_counters();
-        let digest = match prim {
-            0 | 1 => {
-                let mut buf = t_input.clone();
-                let mut data = ShardsRefMut::new(tp.shard_count, tp.shard_len_64, &mut buf);
-                if prim == 0 {
-                    engine.fft(&mut data, tp.pos, tp.size, tp.truncated, tp.skew_delta);
-                } else {
-                    engine.ifft(&mut data, tp.pos, tp.size, tp.truncated, tp.skew_delta);
+        let run = |explicit: Option<crate::codec::EngineKind>| -> (u64, [[u64; 4]; 3]) {
+            let c0 = hooks::isa_counters();
+            let digest = match prim {
+                0 | 1 => {
+                    let mut buf = t_input.clone();
+                    let mut data = ShardsRefMut::new(tp.shard_count, tp.shard_len_64, &mut buf);
+                    let boxed;
+                    let e: &dyn Engine = match explicit {
+                        Some(k) => {
+                            boxed = crate::codec::dyn_engine(k);
+                            boxed.as_ref()
+                        }
+                        None => &engine,
+                    };
+                    if prim == 0 {
+                        e.fft(&mut data, tp.pos, tp.size, tp.truncated, tp.skew_delta);
+                    } else {
+                        e.ifft(&mut data, tp.pos, tp.size, tp.truncated, tp.skew_delta);
+                    }
+                    // contract-defined part only
+                    let end = if prim == 1 { tp.size } else { tp.truncated };
+                    hash_bytes(1, buf[tp.pos * tp.shard_len_64..(tp.pos + end) * tp.shard_len_64].as_flattened())
                 }
-                // contract-defined part only
-                let end = if prim == 1 { tp.size } else { tp.truncated };
-                hash_bytes(1, buf[tp.pos * tp.shard_len_64..(tp.pos + end) * tp.shard_len_64].as_flattened())
-            }
-            2 => {
-                let mut b = m_input.clone();
-                engine.mul(&mut b, log_m);
-                hash_bytes(2, b.as_flattened())
-            }
-            _ => {
-                let mut e = erasures.clone();
-                DefaultEngine::eval_poly(&mut e, cover);
-                let bytes: Vec<u8> = e.iter().flat_map(|x| x.to_le_bytes()).collect();
-                hash_bytes(3, &bytes)
-            }
+                2 => {
+                    let mut b = m_input.clone();
+                    match explicit {
+                        Some(k) => crate::codec::dyn_engine(k).mul(&mut b, log_m),
+                        None => engine.mul(&mut b, log_m),
+                    }
+                    hash_bytes(2, b.as_flattened())
+                }
+                _ => {
+                    let mut e = erasures.clone();
+                    match explicit {
+                        Some(k) => crate::codec::eval_poly(k, &mut e, cover),
+                        None => DefaultEngine::eval_poly(&mut e, cover),
+                    }
+                    let bytes: Vec<u8> = e.iter().flat_map(|x| x.to_le_bytes()).collect();
+                    hash_bytes(3, &bytes)
+                }
+            };
+            (digest, delta(c0, hooks::isa_counters()))
         };
-        let c1 = hooks::isa_counters();
+        let (_, reference) = run(Some(best_kind(mask)));
+        let (digest, dd) = run(None);
         out.evals += 1;
         out.add("masked feature-detection queries observed (hook H2)", hooks::detect_queries() - q0);
-        let dd = delta(c0, c1);
         for isa in 0..3 {
             out.add(format!("target_feature entry-point hits: {}", ISAS[isa]), dd[isa].iter().sum());
         }
-        judge_exact(out, mask, prim, delta(c0, c1), &format!("DefaultEngine::{}", PRIMS[prim]));
+        judge_against_reference(out, mask, dd, reference, &format!("DefaultEngine::{}", PRIMS[prim]));
         digests.push(digest);
         out.tag(format!("mask{}:{}:{}", mask_name(mask), PRIMS[prim], best(mask).map_or("portable", |i| ISAS[i])));
     }
@@ -235,57 +260,30 @@ fn codec_case(rng: &mut Rng, out: &mut CaseOut) {
     };
     let desc = format!("k={k} r={r} size={size} given={}+{}", oi.len(), ri.len());
     let mut digests = Vec::new();
+    // one round trip; `explicit` = the rate codec with that engine, None = the wrappers
+    let round_trip = |explicit: Option<crate::codec::EngineKind>| -> (Vec<Vec<u8>>, Vec<(usize, Vec<u8>)>, [[u64; 4]; 3], [[u64; 4]; 3]) {
+        use crate::codec::{self, Api, RateKind};
+        let api = match explicit {
+            Some(k) => Api::Rate(RateKind::Default, k),
+            None => Api::Wrapper,
+        };
+        let c0 = hooks::isa_counters();
+        let recovery = codec::encode_fresh(api, k, r, size, &originals).expect("encode");
+        let c1 = hooks::isa_counters();
+        let mut dec = codec::make_dec(api, k, r, size, None).expect("new");
+        let order: Vec<(bool, usize)> = oi.iter().map(|i| (false, *i)).chain(ri.iter().map(|i| (true, *i))).collect();
+        let restored = codec::decode_round(dec.as_mut(), &order, &originals, &recovery, &[]).expect("decode").iter;
+        let c2 = hooks::isa_counters();
+        (recovery, restored, delta(c0, c1), delta(c1, c2))
+    };
     for mask in [3usize, 2, 1, 0] {
         let _m = Mask::set(mask);
-        let b = best(mask);
-        let c0 = hooks::isa_counters();
-        let recovery: Vec<Vec<u8>> = {
-            let mut enc = ReedSolomonEncoder::new(k, r, size).expect("new");
-            for o in &originals {
-                enc.add_original_shard(o).expect("add");
-            }
-            let res = enc.encode().expect("encode");
-            res.recovery_iter().map(<[u8]>::to_vec).collect()
-        };
-        let c1 = hooks::isa_counters();
-        let restored: Vec<(usize, Vec<u8>)> = {
-            let mut dec = ReedSolomonDecoder::new(k, r, size).expect("new");
-            for i in &oi {
-                dec.add_original_shard(*i, &originals[*i]).expect("add");
-            }
-            for i in &ri {
-                dec.add_recovery_shard(*i, &recovery[*i]).expect("add");
-            }
-            let res = dec.decode().expect("decode");
-            res.restored_original_iter().map(|(i, s)| (i, s.to_vec())).collect()
-        };
-        let c2 = hooks::isa_counters();
+        // reference: the same round trip with the best reported engine chosen explicitly
+        let (_, _, ref_e, ref_d) = round_trip(Some(best_kind(mask)));
+        let (recovery, restored, de, dd) = round_trip(None);
         out.evals += 2;
-        let de = delta(c0, c1);
-        let dd = delta(c1, c2);
-        for (phase, d, must) in [("encode", de, vec![0usize, 1]), ("decode", dd, vec![0, 1, 2, 3])] {
-            for isa in 0..3 {
-                for p in 0..4 {
-                    if d[isa][p] > 0 && Some(isa) != b {
-                        let reported = mask & 1 << isa != 0 && real(isa);
-                        out.violate(
-                            if reported { format!("C14:not-the-best-isa:{}:{}", ISAS[isa], PRIMS[p]) } else { format!("C14:runs-unreported-isa:{}:{}", ISAS[isa], PRIMS[p]) },
-                            format!("{desc}: {phase} under reported set {} executed {} {} code {} times; delta {d:?}", mask_name(mask), ISAS[isa], PRIMS[p], d[isa][p]),
-                        );
-                    }
-                }
-            }
-            if let Some(bi) = b {
-                for p in must {
-                    if d[bi][p] == 0 {
-                        out.violate(
-                            format!("C14:best-isa-not-used:{}:{}", ISAS[bi], PRIMS[p]),
-                            format!("{desc}: {phase} under reported set {} never executed {} {} code (served by a less capable engine); delta {d:?}", mask_name(mask), ISAS[bi], PRIMS[p]),
-                        );
-                    }
-                }
-            }
-        }
+        judge_against_reference(out, mask, de, ref_e, &format!("{desc}: ReedSolomonEncoder round"));
+        judge_against_reference(out, mask, dd, ref_d, &format!("{desc}: ReedSolomonDecoder round"));
         if restored != expected(&originals, &oi) {
             out.violate("C14:wrong-result-under-mask", format!("{desc}: restored shards wrong under reported set {}", mask_name(mask)));
         }
